@@ -58,12 +58,13 @@ theorem C08_gen_header_verdicts :
 /-! ### whatever the output state is -/
 
 /-- a step that does not begin with an element's start tag — every stream-level construct at
-top level, a keep-alive, the closing tag, a decoder error — is the same whether or not the
-local side has already closed its output: `Serve` returns the construct's error in both cases
-(all the `C08_top_*` theorems carry over) -/
-theorem C08_stream_level_any_output_state (cfg : Cfg) (closed : Bool) (rs : RS) (prog : Prog)
+top level, a keep-alive, the closing tag, a decoder error — is the same whether the output is
+open, was left inside an element by a partial write, or has been closed by the local side:
+`Serve` returns the construct's error (nil for the closing tag) in all three cases (all the
+`C08_top_*` theorems carry over) -/
+theorem C08_stream_level_any_output_state (cfg : Cfg) (st : OutSt) (rs : RS) (prog : Prog)
     (h : ∀ n as rs1, ({ rs with dOut := 0, sticky := none } : RS).next ≠ (.tok (.start n as), rs1)) :
-    handleInputStreamC cfg closed rs prog = handleInputStream cfg rs prog := by
+    handleInputStreamC cfg st rs prog = handleInputStream cfg rs prog := by
   unfold handleInputStreamC
   generalize hn : ({ rs with dOut := 0, sticky := none } : RS).next = r at h
   obtain ⟨rd, rs1⟩ := r
@@ -75,34 +76,134 @@ theorem C08_stream_level_any_output_state (cfg : Cfg) (closed : Bool) (rs : RS) 
   | err e => rfl
   | eof => rfl
 
-/-- with the output open and a handler that does not close it the closed-output model is the
-model of the other theorems -/
+/-- what reaches the wire from whole elements is what was handed to the encoder -/
+theorem encWire_balanced : ∀ (ts : List Tok) (d d' : Nat), depthAfter d ts = some d' →
+    encWire d ts = (d', false, ts) := by
+  intro ts
+  induction ts with
+  | nil => intro d d' h; simp [depthAfter] at h; subst h; rfl
+  | cons t ts ih =>
+    intro d d' h
+    cases t with
+    | start n as => simp only [depthAfter] at h; simp [encWire, ih _ _ h]
+    | stop n =>
+      cases d with
+      | zero => simp [depthAfter] at h
+      | succ d => simp only [depthAfter] at h; simp [encWire, ih _ _ h]
+    | chars s => simp only [depthAfter] at h; simp [encWire, ih _ _ h]
+    | comment s => simp only [depthAfter] at h; simp [encWire, ih _ _ h]
+    | procInst a b => simp only [depthAfter] at h; simp [encWire, ih _ _ h]
+    | directive s => simp only [depthAfter] at h; simp [encWire, ih _ _ h]
+
+/-- with the output open and a handler that does not close it, the model with output states is
+the model of the other theorems, up to what the encoder lets through (`encWire`, the identity
+on whole elements) -/
 theorem C08_open_output (cfg : Cfg) (rs : RS) (prog : Prog) (hc : prog.close = false) :
-    handleInputStreamC cfg false rs prog = handleInputStream cfg rs prog := by
+    handleInputStreamC cfg .opn rs prog
+      = (handleInputStream cfg rs prog).mapWritten fun w => (encWire 0 w).2.2 := by
   unfold handleInputStreamC handleInputStream
   generalize ({ rs with dOut := 0, sticky := none } : RS).next = r
   obtain ⟨rd, rs1⟩ := r
   cases rd with
-  | tok t => cases t <;> simp [handleElemC, hc]
-  | err e => rfl
-  | eof => rfl
+  | tok t => cases t <;> simp [handleElemC, hc, Step.mapWritten, encWire]
+  | err e => simp [Step.mapWritten, encWire]
+  | eof => simp [Step.mapWritten, encWire]
 
-/-- on a closed output an element never makes `Serve` return nil either: the step goes on to
-the next element (nothing written) or ends with an error — the handler's, the output-closed
-error of an attempted write, or the error of a stream-level construct inside the element -/
-theorem C08_closed_output_never_clean (cfg : Cfg) (closed : Bool) (n : Name) (as : List Attr) (rs1 : RS)
+/-- in no state of the output does an element make `Serve` return nil: the step goes on to the
+next element or ends with an error — the handler's, the error of an attempted write
+(output-closed, output-broken), or the error of a stream-level construct inside the element -/
+theorem C08_output_state_never_clean (cfg : Cfg) (st : OutSt) (n : Name) (as : List Attr) (rs1 : RS)
     (prog : Prog) (inv : Option Inv) (w : List Tok) :
-    handleElemC cfg closed n as rs1 prog ≠ .stop inv w .clean := by
+    handleElemC cfg st n as rs1 prog ≠ .stop inv w .clean := by
   unfold handleElemC
-  split
-  · exact handleElem_never_clean cfg n as rs1 prog inv w
-  · split
-    · simp only
-      repeat' split
+  simp only
+  generalize (if prog.close = true then OutSt.closed else st) = st1
+  by_cases h1 : (st1 == OutSt.opn) = true
+  · rw [if_pos h1]
+    intro h
+    cases hx : handleElem cfg n as rs1 prog with
+    | next i w' rs => simp [hx, Step.mapWritten] at h
+    | stop i w' r =>
+      simp [hx, Step.mapWritten] at h
+      exact handleElem_never_clean cfg n as rs1 prog inv w' (by rw [hx, h.1, h.2.2])
+  · rw [if_neg h1]
+    split
+    · repeat' split
       all_goals simp
     · intro h
       obtain ⟨w', hw⟩ := dropWritten_clean h
       exact handleElem_never_clean cfg n as rs1 prog inv w' hw
+
+/-- **what `Serve` returns does not depend on the state of the output**: in every state — also
+after a handler wrote only a start tag, or after the local side closed the stream — the peer's
+closing tag makes `Serve` return nil … -/
+theorem C08_peer_close_any_output_state (cfg : Cfg) (fuel : Nat) (st : OutSt) (rest : List Tok)
+    (a : Nat) (progs : List Prog) :
+    serveFC cfg (fuel + 1) st false { inp := .stop ⟨nsStream, "stream"⟩ :: rest, dIn := a, dOut := 0, sticky := none } progs
+      = { invs := [], written := [], result := .clean } := by
+  simp [serveFC, handleInputStreamC, handleInputStream, RS.next, verdict, nsStream]
+
+/-- … and a received stream error is returned as that error, a comment as the comment error
+(and likewise every other top-level construct, by `C08_stream_level_any_output_state`) -/
+theorem C08_constructs_any_output_state (cfg : Cfg) (fuel : Nat) (st : OutSt) (as : List Attr) (rest : List Tok)
+    (c : String) (hc : closes 0 rest = true) (hcond : seCond rest = some c) (cm : String) (progs : List Prog) :
+    (serveFC cfg (fuel + 1) st false
+        { inp := .start ⟨nsStream, "error"⟩ as :: rest, dIn := 0, dOut := 0, sticky := none } progs).result
+      = .error (.streamError c) ∧
+    (serveFC cfg (fuel + 1) st false
+        { inp := .comment cm :: rest, dIn := 0, dOut := 0, sticky := none } progs).result
+      = .error .comment := by
+  constructor <;> simp [serveFC, handleInputStreamC, handleInputStream, RS.next, verdict, nsStream, hc, hcond]
+
+/-- `SetCloseDeadline` with a time in the future changes nothing: the session is served exactly
+as if the deadline had never been set (one invocation per element, nil on the peer's closing
+tag, …), for every state of the output -/
+def clearFuture (p : Prog) : Prog := { p with dl := if p.dl == 1 then 0 else p.dl }
+
+theorem C08_future_deadline_irrelevant (cfg : Cfg) : ∀ (fuel : Nat) (st : OutSt) (expired : Bool)
+    (rs : RS) (progs : List Prog),
+    serveFC cfg fuel st expired rs (progs.map clearFuture) = serveFC cfg fuel st expired rs progs := by
+  intro fuel
+  induction fuel with
+  | zero => intro st expired rs progs; rfl
+  | succ f ih =>
+    intro st expired rs progs
+    have hh : (progs.map clearFuture).headD Prog.nop = clearFuture (progs.headD Prog.nop) := by
+      cases progs <;> simp [clearFuture, Prog.nop]
+    have hstep : ∀ p : Prog, handleInputStreamC cfg st rs (clearFuture p) = handleInputStreamC cfg st rs p := by
+      intro p
+      simp [handleInputStreamC, handleInputStream, handleElemC, handleElem, clearFuture]
+    have hplain : ∀ p : Prog, handleInputStream cfg rs (clearFuture p) = handleInputStream cfg rs p := by
+      intro p
+      simp [handleInputStream, handleElem, clearFuture]
+    have hdl : ∀ p : Prog, ((clearFuture p).dl == 2) = (p.dl == 2) := by
+      intro p
+      by_cases h1 : p.dl = 1 <;> simp [clearFuture, h1]
+    unfold serveFC
+    simp only [hh, hstep, hplain, hdl]
+    have hout : ∀ p w, outAfter st (clearFuture p) w = outAfter st p w := by
+      intro p w; simp [outAfter, clearFuture]
+    simp only [hout]
+    split
+    · rfl
+    · split
+      · rfl
+      · rename_i inv w rs' _
+        have ht : (progs.map clearFuture).tail = progs.tail.map clearFuture := by
+          cases progs <;> simp
+        cases inv with
+        | none =>
+          simp only [Option.isSome_none, Bool.false_eq_true, if_false, Bool.false_and]
+          rw [ih]
+        | some j =>
+          simp only [Option.isSome_some, if_true, Bool.true_and]
+          rw [ht, ih]
+
+/-- a deadline in the past ends `Serve` with the deadline error before the next element is
+looked at — also when that next token is the peer's closing tag -/
+theorem C08_past_deadline (cfg : Cfg) (fuel : Nat) (st : OutSt) (rs : RS) (progs : List Prog) :
+    serveFC cfg (fuel + 1) st true rs progs = { invs := [], written := [], result := .error .deadline } := by
+  simp [serveFC]
 
 /-! ### stream-level input never reaches a handler -/
 
